@@ -206,11 +206,14 @@ def plugin_call_sites(prog: Program):
     overridable.update(name for name, m in base.methods.items() if not name.startswith("_"))
     out = []
     for func in prog.iter_functions():
-        if func.cls is not None and (func.cls == base or base in func.cls.mro):
-            continue  # a plugin calling its own methods
+        own = func.cls is not None and (func.cls == base or base in func.cls.mro)
         for site in prog.sites_in(func):
             node = site.node
             if not isinstance(node.func, ast.Attribute):
+                continue
+            if own and isinstance(node.func.value, ast.Name) and func.params and node.func.value.id == func.params[0]:
+                continue  # a plugin calling its own methods on self
+            if own and isinstance(node.func.value, ast.Call) and dotted(node.func.value.func) == "super":
                 continue
             recv = prog.infer(func, node.func.value)
             if recv and recv[0] == "cls" and (recv[1] == base or base in recv[1].mro) and node.func.attr in overridable:
